@@ -6,7 +6,7 @@ import vlib
 from runner import PropBase
 from vlib import Rng
 
-KEYS = ["mz", "st", "ga", "gA", "gr", "iv", "ch", "sp", "ip", "spn", "ipn", "rn", "vn", "cr", "cv", "sz", "fm", "mg", "mga", "sa", "ia"]
+KEYS = ["mz", "st", "ga", "gA", "gr", "iv", "ch", "sp", "ip", "spn", "ipn", "rn", "vn", "cr", "cv", "sz", "fm", "mg", "mga", "g0", "sp0", "ip0", "sa", "ia"]
 UNKNOWN = ["-", "foo", "$eip", "RAX", "Rsp", "x31", "r32", "g_r32", "g8", "pc.", "cpsr", "EIP", "zz"]
 
 
